@@ -244,6 +244,8 @@ def pipelined(ctx, res):
             res.unmodelled += 1
         else:
             res.disagreements.append(x)
+    # malformed requests that are readable while start() is still running
+    shellprops.start_races(ctx, res, 'C09', 320 if ctx.tier == 'quick' else 6000)
 
 
 def search(ctx, res):
